@@ -51,7 +51,7 @@ def vectors(ctx):
     for (msb, lsb), fns in T29_FIELDS:
         w = lsb - msb + 1
         for st in range(4):
-            for val in range(1 << w):
+            for val in [x for x in range(1 << w) for _ in range(ctx.pick(1, 6))]:
                 f = es(rng, 29)
                 f = gen.set_bits(f, 38, 39, st)
                 f = gen.set_bits(f, 32 + msb, 32 + lsb, val)
